@@ -15,6 +15,7 @@
   (pydantic `FilePath`), and — for `main` — whether a schema-validation error is caught (F3 switch).
 -/
 import Kskm.Data
+import Kskm.Duration
 import Kskm.ConfigSchema
 namespace Kskm.Config
 open Kskm
@@ -72,20 +73,21 @@ def parseCleanInt (l : List Char) : Option Int :=
   | r => if !r.isEmpty && r.all isAsciiDigit then some (digitsVal r : Int) else none
 
 /-- integer value of a string for both Python `int(s)` and pydantic's lax `int`:
-    `some (some i)` a clean decimal, `some none` certainly not an integer (ASCII, no digit at all),
+    `some (some i)` a clean decimal, `some none` certainly not an integer (ASCII with no digit at
+    all, or with a letter: neither accepts `1e3`, `0x10`, `1x`),
     `none` anything else (whitespace, underscores, `12.0`, non-ASCII digits …) — not modelled. -/
 def strInt (s : String) : Option (Option Int) :=
   let l := s.toList
   match parseCleanInt l with
   | some i => some (some i)
-  | none => if l.all isAscii && !l.any isAsciiDigit then some none else none
+  | none => if l.all isAscii && (!l.any isAsciiDigit || l.any isAsciiAlpha) then some none else none
 
 /-! ### durations -/
 
 def usPerSec : Int := 1000000
 def maxTdDays : Int := 999999999
 /-- `datetime.timedelta` range: `-999999999 d ≤ td < 1000000000 d` -/
-def tdInRange (us : Int) : Bool := decide (-(maxTdDays * usPerDay) ≤ us) && decide (us < (maxTdDays + 1) * usPerDay)
+def tdRangeOk (us : Int) : Bool := decide (-(maxTdDays * usPerDay) ≤ us) && decide (us < (maxTdDays + 1) * usPerDay)
 
 /-- state of the one-pass scan of pydantic's (speedate's) ISO 8601 duration grammar
     `[+-]?P(nY|nM|nW|nD)*(T(nH|nM|nS)*)?` with integer components -/
@@ -128,84 +130,36 @@ def pydMagnitude (l : List Char) : Option Int :=
   | _ => none
 
 def pydDurationChars : List Char := ['P', 'T', 'Y', 'M', 'W', 'D', 'H', 'S', '+', '-']
+/-- the further characters of the spellings not modelled: fractions, `D days, HH:MM:SS`, `3d` -/
+def pydOtherFormChars : List Char := ['.', ',', ':', ' ', 'd', 'a', 'y', 's']
 
 /-- pydantic's `timedelta` from a string.  Strings over `[0-9PTYMWDHS+-]` are decided exactly;
     the other accepted spellings (fractions, `D days, HH:MM:SS`, `3d` …) are `unsupported`. -/
 def pydDuration (s : String) : Res (Option Int) :=
   let l := s.toList
   if l.isEmpty then pure none
+  else if l.any (fun c => !(isAsciiDigit c || pydDurationChars.contains c || pydOtherFormChars.contains c)) then
+    pure none      -- a character none of speedate's duration spellings uses
   else if !(l.all fun c => isAsciiDigit c || pydDurationChars.contains c) then unsupported
   else match l with
-    | '-' :: r =>
-      match pydMagnitude r with
-      | some m => if tdInRange (-m) then pure (some (-m)) else err .overflow
+    | '-' :: 'P' :: r =>
+      match pydMagnitude ('P' :: r) with
+      | some m => if tdRangeOk (-m) then pure (some (-m)) else err .overflow
       | none => pure none
-    | '+' :: r => pure (pydMagnitude r)
-    | r => pure (pydMagnitude r)
+    | '+' :: 'P' :: r => pure (pydMagnitude ('P' :: r))
+    | 'P' :: r => pure (pydMagnitude ('P' :: r))
+    | r =>
+      -- not the ISO form: bare (signed) digits are refused, `1D` / `+1D` are the `N d` spelling
+      if (parseCleanInt r).isSome || !r.any isAsciiDigit then pure none else unsupported
 
 /-- whole seconds (an `int`, `bool` or integral `float`) as a pydantic `timedelta` -/
 def pydDurationOfSeconds (i : Int) : Res (Option Int) :=
-  if i ≥ (maxTdDays + 1) * 86400 then pure none
-  else if i < -(maxTdDays * 86400) then err .overflow
+  -- outside the `timedelta` range pydantic's answer depends on the magnitude in ways not modelled
+  -- (refused, OverflowError, or re-read in another unit near ±2^63)
+  if i ≥ (maxTdDays + 1) * 86400 || i < -(maxTdDays * 86400) then unsupported
   else pure (some (i * usPerSec))
 
-/-- state of the repository's `duration_to_timedelta` loop (common/parse_utils.py) -/
-structure RepoDur where
-  timeSection : Bool := false
-  total : Int := 0
-
 def splitDigits (l : List Char) : List Char × List Char := (l.takeWhile isAsciiDigit, l.dropWhile isAsciiDigit)
-
-/-- `.` of the regex does not match a newline: `(.*)` stops there and what follows is dropped -/
-def upToNewline (l : List Char) : List Char := l.takeWhile (· != '\n')
-
-/-- One round of the `while duration:` loop on the remaining text.  Non-ASCII text is not modelled
-    (`\d` and `int()` take Unicode digits). -/
-def repoDurStep (st : RepoDur) (d : List Char) : Res (RepoDur × List Char) := do
-  let (ts, d) := match d with
-    | 'T' :: r => (true, r)
-    | _ => (st.timeSection, d)
-  let (ds, r) := splitDigits d
-  match r with
-  | [] => err .value
-  | what :: rest0 =>
-    if ds.isEmpty || !(['W', 'D', 'H', 'M', 'S'].contains what) then err .value else
-    let rest := upToNewline rest0
-    let num : Int := digitsVal ds
-    let add ←
-      (if what == 'W' then pure (7 * num * usPerDay)
-       else if what == 'D' then pure (num * usPerDay)
-       else if what == 'H' then pure (num * 3600 * usPerSec)
-       else if what == 'M' then (if ts then pure (num * 60 * usPerSec) else err .notImplemented)
-       else pure (num * usPerSec) : Res Int)
-    if !tdInRange add then err .overflow else
-    let total := st.total + add
-    if !tdInRange total then err .overflow else
-    -- `try: res += timedelta(seconds=int(rest)); rest = "" except ValueError: pass`
-    match parseCleanInt rest with
-    | some tail =>
-      let t := tail * usPerSec
-      if !tdInRange t || !tdInRange (total + t) then err .overflow
-      else pure ({ timeSection := ts, total := total + t }, [])
-    | none =>
-      if rest.all (fun c => isAsciiDigit c || ['W', 'D', 'H', 'M', 'S', 'T'].contains c) then
-        pure ({ timeSection := ts, total := total }, rest)
-      else unsupported      -- `int(" 5 ")`, `int("1_0")`, text that is refused one round later, …
-
-def repoDurLoop : Nat → RepoDur → List Char → Res Int
-  | 0, _, _ => unsupported
-  | fuel + 1, st, d =>
-    if d.isEmpty then pure st.total else do
-      let (st', d') ← repoDurStep st d
-      repoDurLoop fuel st' d'
-
-/-- `duration_to_timedelta(s)` for a non-empty string -/
-def repoDuration (s : String) : Res Int :=
-  let l := s.toList
-  if !l.all isAscii then unsupported else
-  match l with
-  | 'P' :: r => repoDurLoop (r.length + 1) {} r
-  | _ => err .value
 
 /-- Python truthiness of a tree value (`if not duration`) -/
 def truthy : CVal → Bool
@@ -224,7 +178,7 @@ def truthy : CVal → Bool
 def durationToTimedelta (v : CVal) : Res Int :=
   if !truthy v then pure 0 else
   match v with
-  | .str s => repoDuration s
+  | .str s => parseDuration s               -- Kskm/Duration.lean (work package E)
   | _ => err .attribute                     -- `'int' object has no attribute 'startswith'`
 
 /-! ### date-times -/
@@ -434,8 +388,16 @@ def valScalar (env : Env) (strict : Bool) (sc : Scalar) (v : CVal) : Res (Option
       | .date d => pure (some (.ts (d * usPerDay) none))
       | .int i =>
         if -20000000000 ≤ i && i ≤ 20000000000 then pure (some (.ts (i * usPerSec) (some 0))) else unsupported
-      | .float _ _ => unsupported
-      | .str s => do let r ← pydDatetime s; pure (r.map fun (us, off) => .ts us off)
+      | .float t integral =>
+        match t with
+        | some i => if integral && -20000000000 ≤ i && i ≤ 20000000000
+                    then pure (some (.ts (i * usPerSec) (some 0))) else unsupported
+        | none => unsupported
+      | .str s =>
+        match parseCleanInt s.toList with
+        | some i =>
+          if -20000000000 ≤ i && i ≤ 20000000000 then pure (some (.ts (i * usPerSec) (some 0))) else unsupported
+        | none => do let r ← pydDatetime s; pure (r.map fun (us, off) => .ts us off)
       | _ => pure none
   | .filePath =>
     match v with
@@ -571,11 +533,16 @@ def isStrKey (name : String) (k : CVal) : Bool :=
   | .str s => s == name
   | _ => false
 
+/-- Python `needle in haystack` for strings -/
+def isInfix (needle : List Char) : List Char → Bool
+  | [] => needle.isEmpty
+  | c :: r => needle.isPrefixOf (c :: r) || isInfix needle r
+
 def delKey (kvs : List (CVal × CVal)) (name : String) : List (CVal × CVal) :=
   kvs.filter fun kv => !isStrKey name kv.1
 
 /-- Python `int(x)` -/
-def pyInt (v : CVal) : Res Int :=
+def pyIntOf (v : CVal) : Res Int :=
   match v with
   | .int i => pure i
   | .bool b => pure (if b then 1 else 0)
@@ -608,8 +575,10 @@ def transformKskPolicy (kvs : List (CVal × CVal)) : Res (List (CVal × CVal)) :
         let rest := delKey (delKey pk "ttl") "signers_name"
         let sp ← mapDurations rest
         pure (setKey kvs "ksk_policy" (.map (moved ++ [(.str "signature_policy", .map sp)])))
-    | .str _ => unsupported     -- substring tests, then AttributeError
-    | .list _ => unsupported
+    -- `"signature_policy" not in x` on a str is a substring test, on a list a membership test; then
+    -- `.pop` / `.items()` raise AttributeError (TypeError for `list.pop("ttl")`)
+    | .str t => if isInfix "signature_policy".toList t.toList then pure kvs else err .attribute
+    | .list xs => if xs.any (isStrKey "signature_policy") then pure kvs else err .attribute
     | _ => err .type            -- `argument of type 'NoneType' is not iterable`
 
 /-- step 2: `keys` → `ksk_keys` -/
@@ -628,16 +597,16 @@ def transformDnsTtl (kvs : List (CVal × CVal)) : Res (List (CVal × CVal)) :=
       match CVal.lookupStr rpk "dns_ttl" with
       | none => pure kvs
       | some d => do
-        let i ← pyInt d
+        let i ← pyIntOf d
         if i != 0 then pure kvs else
         match kp with
         | .map kpk =>
           match CVal.lookupStr kpk "ttl" with
           | none => err .key
           | some t => pure (setKey kvs "request_policy" (.map (setKey rpk "dns_ttl" t)))
-        | _ => unsupported
-    | .str _ => unsupported
-    | .list _ => unsupported
+        | _ => err .type        -- `str` / `list` indexed with "ttl"
+    | .str t => if isInfix "dns_ttl".toList t.toList then err .type else pure kvs
+    | .list xs => if xs.any (isStrKey "dns_ttl") then err .type else pure kvs
     | _ => err .type
   | _, _ => pure kvs
 
